@@ -172,12 +172,13 @@ type Options struct {
 	MaxPaths    int
 	WorkDir     string
 	Safety      bool
+	Key         string
 }
 
 // Verify symbolically executes fn against its contract and collects obligations.
 func (e *Engine) Verify(fn *ssa.Function, ct *Contract, props []string, opt Options) *VC {
 	vc := &VC{eng: e, fn: fn, contract: ct, props: props, declSet: map[string]bool{}, notes: map[string]bool{}, used: map[string]bool{},
-		oblCount: map[string]int{}, valueLabels: map[string]string{}, maxPaths: opt.MaxPaths, inlineDepth: opt.InlineDepth, lets: map[string]SV{}}
+		oblCount: map[string]int{}, valueLabels: map[string]string{}, maxPaths: opt.MaxPaths, inlineDepth: opt.InlineDepth, lets: map[string]SV{}, key: opt.Key}
 	if ct != nil {
 		vc.safety = ct.Safety
 	}
